@@ -151,6 +151,35 @@ pub fn codec_decompress(c: u8, data: &[u8]) -> Result<Vec<u8>, String> {
     Ok(out)
 }
 
+/// whatever a streaming decoder yields before it fails (the library reads directories lazily, so a stream that is
+/// damaged or cut off behind the bytes it needs is still decoded that far)
+pub fn codec_decompress_lenient(c: u8, data: &[u8]) -> Vec<u8> {
+    fn drain<R: Read>(mut r: R) -> Vec<u8> {
+        let mut out = Vec::new();
+        let mut buf = [0u8; 8192];
+        loop {
+            match r.read(&mut buf) {
+                Ok(0) | Err(_) => break,
+                Ok(n) => out.extend_from_slice(&buf[..n]),
+            }
+            if out.len() > 64 << 20 {
+                break;
+            }
+        }
+        out
+    }
+    match c {
+        1 => data.to_vec(),
+        2 => drain(flate2::read::GzDecoder::new(data)),
+        3 => drain(brotli::Decompressor::new(data, 4096)),
+        4 => match zstd::stream::read::Decoder::new(data) {
+            Ok(d) => drain(d),
+            Err(_) => Vec::new(),
+        },
+        _ => Vec::new(),
+    }
+}
+
 pub fn encode_header(h: &SHeader) -> Vec<u8> {
     let mut b = Vec::with_capacity(127);
     b.extend_from_slice(b"PMTiles");
